@@ -195,6 +195,7 @@ def run_case(case, module, real_so):
                 cls = [('no floating-point division by zero for inputs satisfying the precondition', False)]
             else:
                 cls = _claims(case, I, O, X)
+            sym.instantiate_trig_axioms()
             if not witness:
                 w = z3.Solver(); w.set('timeout', 5000); w.add(*fs.pc); w.add(*sym.axioms)
                 q += 1
@@ -233,7 +234,7 @@ def run_case(case, module, real_so):
     if verdict == 'holds' and not witness:
         verdict = 'error'; detail = 'VACUOUS: no path with a satisfiable path condition'
     return {'verdict': verdict, 'paths': npaths, 'queries': q + sym.queries, 'subresults': sub[:12], 'model': model_out, 'detail': detail,
-            'functions': sorted(sym.funcs_run), 'axioms': [str(a)[:200] for a in sym.axioms[:40]], 'witness': 'reachable' if witness else 'none',
+            'functions': sorted(sym.funcs_run), 'axioms': [str(a)[:200] for a in sym.axioms[:40]], 'trig_instances': sym.trig_instances[:40], 'witness': 'reachable' if witness else 'none',
             'confirmed': verdict == 'violated', 'time': round(time.time() - t0, 2)}
 
 
